@@ -166,66 +166,184 @@ def _insertions(run, P):
 
 
 def _extreme(run, P):
+    """extreme_gca_latitude, read from the EXPANDED value of every returning path (uxsa/symx: locals substituted, extracted helpers looked through):
+      (a) each return is max/min - chosen consistently with extreme_type - over candidates that include the latitude of BOTH endpoints;
+      (b) an interior candidate appears only on paths where 0 < t < 1 holds, is arcsin of the NORMALISED chord point x(t) = c1(t) n1 + c2(t) n2, and
+      (c) d/dt [ z(t) / |x(t)| ] = 0 at the code's t, identically in (z1, z2, n1.n2)  (exact polynomial identity)."""
+    from .. import symx
     f = P.func(f"{ARCS}:extreme_gca_latitude")
-    fn = f.node
-    # ---- every return is max/min over a set with both endpoint latitudes
-    rets = [r for r in ast.walk(fn) if isinstance(r, ast.Return)]
-    c = f"{f.key}:returns-include-endpoints"
-    bad = None
-    for r in rets:
-        v = r.value
-        arms = [v.body, v.orelse] if isinstance(v, ast.IfExp) else [v]
-        kinds = []
-        for a in arms:
-            if not (isinstance(a, ast.Call) and isinstance(a.func, ast.Name) and a.func.id in ("max", "min")):
-                bad = (r, f"{norm(a)[:50]} is not a max()/min() over candidate latitudes")
-                break
-            args = {norm(x) for x in a.args}
-            if not {"lat_n1", "lat_n2"} <= args:
-                bad = (r, f"{a.func.id}({sorted(args)}) does not include both endpoint latitudes")
-            kinds.append(a.func.id)
-        if isinstance(v, ast.IfExp) and not bad:
-            # 'max' arm under extreme_type == "max"
-            t = norm(v.test)
-            if ("'max'" in t and kinds != ["max", "min"]) or ("'min'" in t and kinds != ["min", "max"]):
-                bad = (r, f"arms {kinds} under test {t}: maximum/minimum exchanged")
-    if bad:
-        run.violation("F-PATH/extreme-latitude", c, where(f, bad[0]), bad[1])
-    elif rets:
-        run.holds("F-PATH/extreme-latitude", c, where(f, rets[0]), f"all {len(rets)} returns are max/min over sets containing both endpoint latitudes")
+    R = "F-PATH/extreme-latitude"
+    X = symx.Expander(P, keep={"_normalize_xyz_scalar", "_normalize_xyz", "_xyz_to_lonlat_rad_scalar", "_xyz_to_lonlat_rad", "dot", "isclose"})
+    params = f.params()
+    arc, etype = params[0], params[1]
+    c_ret, c_stat, c_guard = f"{f.key}:returns-include-endpoints", f"{f.key}:interior-extreme-is-stationary", f"{f.key}:interior-guard"
+    rets = X.returns(f)
+    if not rets:
+        for c in (c_ret, c_stat, c_guard):
+            run.incomplete(R, c, where(f), "no returning path found")
+        return
+    consts = {}
+    for st in f.module.tree.body:
+        if isinstance(st, ast.Assign) and len(st.targets) == 1 and isinstance(st.targets[0], ast.Name) and isinstance(st.value, ast.Dict):
+            if all(isinstance(k, ast.Constant) and isinstance(v, ast.Name) for k, v in zip(st.value.keys, st.value.values)):
+                consts[st.targets[0].id] = {k.value: v.id for k, v in zip(st.value.keys, st.value.values)}
+
+    def is_type_key(e):
+        """extreme_type, possibly .lower()ed"""
+        while isinstance(e, ast.Call) and isinstance(e.func, ast.Attribute) and e.func.attr in ("lower", "strip") and not e.args:
+            e = e.func.value
+        return isinstance(e, ast.Name) and e.id == etype
+
+    def arms_of(r, conds):
+        """[(requested kind 'max'|'min', reducer name, args)] or a string saying why not"""
+        if isinstance(r, ast.IfExp) and isinstance(r.test, ast.Compare) and len(r.test.ops) == 1 and isinstance(r.test.ops[0], (ast.Eq, ast.NotEq)):
+            l, rr = r.test.left, r.test.comparators[0]
+            lit = rr if isinstance(rr, ast.Constant) else l
+            key = l if lit is rr else rr
+            if isinstance(lit, ast.Constant) and lit.value in ("max", "min") and is_type_key(key):
+                first = lit.value if isinstance(r.test.ops[0], ast.Eq) else ("min" if lit.value == "max" else "max")
+                other = "min" if first == "max" else "max"
+                out = []
+                for want, arm in ((first, r.body), (other, r.orelse)):
+                    if not (isinstance(arm, ast.Call) and isinstance(arm.func, ast.Name) and arm.func.id in ("max", "min")):
+                        return f"{norm(arm)[:50]} is not a max()/min() over candidate latitudes"
+                    out.append((want, arm.func.id, arm.args))
+                return out
+        if isinstance(r, ast.Call):
+            fn_ = r.func
+            if isinstance(fn_, ast.Name) and fn_.id in ("max", "min"):
+                # plain max()/min(): the path must be conditioned on the requested kind
+                for t, v in conds:
+                    if isinstance(t, ast.Compare) and len(t.ops) == 1 and isinstance(t.ops[0], ast.Eq) and isinstance(t.comparators[0], ast.Constant) and t.comparators[0].value in ("max", "min") and is_type_key(t.left):
+                        k = t.comparators[0].value
+                        want = k if v else ("min" if k == "max" else "max")
+                        return [(want, fn_.id, r.args)]
+                return f"{fn_.id}(...) is returned on a path that does not depend on {etype}"
+            table = key = None
+            if isinstance(fn_, ast.Call) and isinstance(fn_.func, ast.Attribute) and fn_.func.attr == "get" and isinstance(fn_.func.value, ast.Name) and fn_.args:
+                table, key = fn_.func.value.id, fn_.args[0]
+            elif isinstance(fn_, ast.Subscript) and isinstance(fn_.value, ast.Name):
+                table, key = fn_.value.id, fn_.slice
+            if table in consts and key is not None and is_type_key(key):
+                tb = consts[table]
+                if set(tb) != {"max", "min"}:
+                    return f"selector table {table} has keys {sorted(tb)}"
+                return [(k, tb[k], r.args) for k in ("max", "min")]
+        return None
+
+    def endpoint(e):
+        """0 / 1 when e is the latitude of that endpoint of the arc"""
+        if isinstance(e, ast.Subscript) and isinstance(e.slice, ast.Constant) and e.slice.value == 1 and symx.call_name(e.value) in ("_xyz_to_lonlat_rad_scalar", "_xyz_to_lonlat_rad") and len(e.value.args) >= 3:
+            a0, a1, a2 = e.value.args[:3]
+            for j in (0, 1):
+                pj = f"{arc}[{j}]"
+                if [norm(a0), norm(a1), norm(a2)] == [f"{pj}[0]", f"{pj}[1]", f"{pj}[2]"]:
+                    return j
+        return None
+
+    def interior(e):
+        """(chord point expression, normalised?) when e is arcsin([clip](P[2])) of a chord point, else None"""
+        if not (isinstance(e, ast.Call) and symx.call_name(e) == "arcsin" and e.args):
+            return None
+        z = e.args[0]
+        if isinstance(z, ast.Call) and symx.call_name(z) == "clip" and z.args:
+            z = z.args[0]
+        if not (isinstance(z, ast.Subscript) and isinstance(z.slice, ast.Constant) and z.slice.value == 2):
+            return None
+        v = symx.strip_neutral(z.value)
+        if isinstance(v, ast.Call) and symx.call_name(v) in ("_normalize_xyz_scalar", "_normalize_xyz") and len(v.args) >= 3:
+            bases = {norm(a.value) for a in v.args[:3] if isinstance(a, ast.Subscript)}
+            if len(bases) == 1 and [norm(a.slice) for a in v.args[:3]] == ["0", "1", "2"]:
+                return v.args[0].value, True
+            return None
+        return v, False
+
+    bad_ret, unk_ret = [], []
+    interiors = []       # (path, conds, chord expr, normalised)
+    n_paths = 0
+    for path, r, env in rets:
+        n_paths += 1
+        conds = X.conditions(f, path, env)
+        at = where(f, path.events[-1]) if path.events else where(f)
+        arms = arms_of(r, conds)
+        if arms is None:
+            unk_ret.append((at, f"returned value {norm(r)[:80]} is not recognised as a max/min selection"))
+            continue
+        if isinstance(arms, str):
+            bad_ret.append((at, arms))
+            continue
+        for want, red, args in arms:
+            if red != want:
+                bad_ret.append((at, f"when {etype} is '{want}' the candidates are reduced with {red}(): maximum/minimum exchanged"))
+            eps = {endpoint(a) for a in args}
+            if not {0, 1} <= eps:
+                others = [a for a in args if endpoint(a) is None and interior(a) is None]
+                if others:
+                    unk_ret.append((at, f"candidate {norm(others[0])[:60]} not recognised"))
+                else:
+                    bad_ret.append((at, f"{red}() over {len(args)} candidate(s) does not include the latitude of both endpoints"))
+            for a in args:
+                it = interior(a)
+                if it is not None:
+                    interiors.append((path, conds, it[0], it[1], at))
+                elif endpoint(a) is None:
+                    unk_ret.append((at, f"candidate {norm(a)[:60]} not recognised"))
+    if bad_ret:
+        run.violation(R, c_ret, bad_ret[0][0], bad_ret[0][1])
+    elif unk_ret:
+        run.incomplete(R, c_ret, unk_ret[0][0], unk_ret[0][1])
     else:
-        run.incomplete("F-PATH/extreme-latitude", c, where(f), "no return found")
-    # ---- stationary point identity
-    c = f"{f.key}:interior-extreme-is-stationary"
-    env = {"n1[2]": "z1", "n2[2]": "z2"}
-    t_rat = None
-    interp = None
-    try:
-        for st in iter_stmts(fn.body):
-            if isinstance(st, ast.Assign) and len(st.targets) == 1 and isinstance(st.targets[0], ast.Name):
-                nm = st.targets[0].id
-                v = st.value
-                if isinstance(v, ast.Call) and (dotted(v.func) or [""])[-1] == "dot" and {norm(S) for a in v.args for S in ast.walk(a) if isinstance(S, ast.Name)} >= {"n1", "n2"}:
-                    env[nm] = "d"
-                    continue
-                if nm == "node3" and interp is None:
-                    interp = v
-                    continue
-                if nm == "d_a_max" and t_rat is not None:
-                    continue  # the clamp near 0/1 keeps the value
-                try:
-                    r = to_rat(v, env)
-                except NotAlgebraic:
-                    continue
-                env[nm] = r
-                if nm == "d_a_max":
-                    t_rat = r
-        if t_rat is None or interp is None:
-            run.incomplete("F-PATH/extreme-latitude", c, where(f), "d_a_max formula or the interpolation node3 = ... not found")
+        run.holds(R, c_ret, where(f), f"all {n_paths} returning paths reduce with max/min (as requested) over sets containing both endpoint latitudes")
+    # ---- interior candidate
+    if not interiors:
+        run.incomplete(R, c_stat, where(f), "no interior candidate arcsin(normalised chord point z) found on any path: bulging arcs cannot exceed their endpoints")
+        run.incomplete(R, c_guard, where(f), "no interior candidate found")
+        return
+    path, conds, chord, normalised, at = interiors[0]
+    # the parameter t: the middle of a chained comparison 0 < t < 1 that holds on this path
+    T = None
+    for t_, v in conds:
+        if v and isinstance(t_, ast.Compare) and len(t_.ops) == 2 and all(isinstance(o, ast.Lt) for o in t_.ops) and norm(t_.left) == "0" and norm(t_.comparators[1]) == "1":
+            T = t_.comparators[0]
+        if (not v) and isinstance(t_, ast.UnaryOp) and isinstance(t_.op, ast.Not) and isinstance(t_.operand, ast.Compare) and len(t_.operand.ops) == 2 and all(isinstance(o, ast.Lt) for o in t_.operand.ops) \
+                and norm(t_.operand.left) == "0" and norm(t_.operand.comparators[1]) == "1":
+            T = t_.operand.comparators[0]
+    if T is None:
+        weaker = [t_ for t_, v in conds if isinstance(t_, ast.Compare) and len(t_.ops) == 2]
+        if weaker:
+            run.violation(R, c_guard, at, f"the interior candidate is used under {norm(weaker[0])[:80]}, not under 0 < t < 1 (strict): outside (0, 1) the stationary point is not on the arc")
+        else:
+            run.violation(R, c_guard, at, "the interior candidate is not restricted to 0 < d_a_max < 1")
+    elif not normalised:
+        run.violation(R, c_guard, at, "the chord point is not normalised before its latitude is taken")
+    elif any(True for p2, c2, *_ in interiors if not any(v and isinstance(t_, ast.Compare) and len(t_.ops) == 2 for t_, v in c2) and not any((not v) and isinstance(t_, ast.UnaryOp) for t_, v in c2)):
+        run.violation(R, c_guard, at, "an interior candidate is also used on a path where 0 < t < 1 is not established")
+    else:
+        run.holds(R, c_guard, at, "interior candidate used only for 0 < t < 1 and normalised before arcsin")
+    if T is None:
+        run.incomplete(R, c_stat, at, "the interpolation parameter cannot be identified (no 0 < t < 1 condition on the interior path)")
+        return
+    # the clamp near the ends keeps the value:  clip(T0, 0, 1) if isclose(T0, 0|1, atol=...) [or ...] else T0
+    T0 = T
+    if isinstance(T, ast.IfExp):
+        body = T.body
+        ok_clamp = isinstance(body, ast.Call) and symx.call_name(body) == "clip" and body.args and norm(body.args[0]) == norm(T.orelse) and [norm(a) for a in body.args[1:3]] == ["0", "1"]
+        atoms = T.test.values if isinstance(T.test, ast.BoolOp) else [T.test]
+        ok_test = all(isinstance(a_, ast.Call) and symx.call_name(a_) == "isclose" and a_.args and norm(a_.args[0]) == norm(T.orelse) and len(a_.args) > 1 and norm(a_.args[1]) in ("0", "1") for a_ in atoms)
+        if not (ok_clamp and ok_test):
+            run.incomplete(R, c_stat, at, f"parameter {norm(T)[:80]} is a conditional that is not the clamp-near-the-ends idiom")
             return
-        # interpolation coefficients: linear form in the symbolic vectors n1, n2 with parameter t
-        env2 = {"d_a_max": "t", "n1": "N1", "n2": "N2"}
-        lin = to_rat(interp, env2)
+        T0 = T.orelse
+    try:
+        tn = norm(T)
+        z1n, z2n = f"{arc}[0][2]", f"{arc}[1][2]"
+        env_t = {z1n: "z1", z2n: "z2"}
+        for x in ast.walk(T0):
+            if isinstance(x, ast.Call) and symx.call_name(x) == "dot" and len(x.args) == 2 and {norm(symx.strip_neutral(a_)) for a_ in x.args} == {f"{arc}[0]", f"{arc}[1]"}:
+                env_t[norm(x)] = "d"
+        t_rat = to_rat(T0, env_t)
+        env_x = {tn: "t", f"{arc}[0]": "N1", f"{arc}[1]": "N2"}
+        lin = to_rat(chord, env_x)
         if not lin.d.t == {(): 1}:
             raise NotAlgebraic("interpolation has a denominator")
         c1 = lin.n.coeff("N1", 1).coeff("N2", 0)
@@ -248,26 +366,15 @@ def _extreme(run, P):
                 term = term * D
             total = total + term
         affine = (c1 + c2 - Poly.const(1)).is_zero()
-        facts = {"c1": repr(c1), "c2": repr(c2), "t_numerator": repr(N), "t_denominator": repr(D), "degree": deg}
+        facts = {"c1": repr(c1), "c2": repr(c2), "t_numerator": repr(N), "t_denominator": repr(D), "degree": deg, "helpers_looked_through": sorted(set(X.inlined))}
         if total.is_zero() and affine:
-            run.holds("F-PATH/extreme-latitude", c, where(f, interp), "d/dt [ z(t) / |x(t)| ] = 0 at t = d_a_max, identically in (z1, z2, n1.n2), for x(t) = the code's interpolation between n1 and n2", facts=facts)
+            run.holds(R, c_stat, at, "d/dt [ z(t) / |x(t)| ] = 0 at the code's t, identically in (z1, z2, n1.n2), for x(t) = the code's interpolation between n1 and n2", facts=facts)
         else:
-            run.violation("F-PATH/extreme-latitude", c, where(f, interp),
-                          "the point evaluated as the interior extreme is not the stationary point of the latitude along the arc: the interpolation parameter d_a_max and the interpolation "
-                          f"{norm(interp)} are inconsistent (residual polynomial has {len(total.t)} terms, affine={affine}); bulging edges get a wrong extreme latitude", facts=facts)
+            run.violation(R, c_stat, at,
+                          "the point evaluated as the interior extreme is not the stationary point of the latitude along the arc: the interpolation parameter and the interpolation "
+                          f"{norm(chord)[:60]} are inconsistent (residual polynomial has {len(total.t)} terms, affine={affine}); bulging edges get a wrong extreme latitude", facts=facts)
     except NotAlgebraic as e:
-        run.incomplete("F-PATH/extreme-latitude", c, where(f), f"expression outside the polynomial fragment: {e}")
-    # ---- interior candidate only used when 0 < t < 1, and is re-normalised before arcsin
-    c = f"{f.key}:interior-guard"
-    g = [st for st in iter_stmts(fn.body) if isinstance(st, ast.If) and isinstance(st.test, ast.Compare) and len(st.test.ops) == 2 and norm(st.test.comparators[0]) == "d_a_max"]
-    if g and norm(g[0].test.left) == "0" and norm(g[0].test.comparators[1]) == "1" and all(isinstance(o, ast.Lt) for o in g[0].test.ops):
-        norm_ok = any(isinstance(n, ast.Call) and (dotted(n.func) or [""])[-1].startswith("_normalize_xyz") for s in g[0].body for n in ast.walk(s))
-        if norm_ok:
-            run.holds("F-PATH/extreme-latitude", c, where(f, g[0]), "interior candidate used only for 0 < d_a_max < 1 and normalised before arcsin")
-        else:
-            run.violation("F-PATH/extreme-latitude", c, where(f, g[0]), "the chord point is not normalised before its latitude is taken")
-    else:
-        run.violation("F-PATH/extreme-latitude", c, where(f), "the interior candidate is not restricted to 0 < d_a_max < 1")
+        run.incomplete(R, c_stat, at, f"expression outside the polynomial fragment: {str(e)[:120]}")
 
 
 def _edge_extremes(run, P):
